@@ -300,3 +300,92 @@ func VerifHarness_ModuleChains() {
 		}
 	}
 }
+
+// ---- import graphs with defective modules (C05) ----
+
+// Module texts the host may serve: sound ones and defective ones of every class.
+var verifModuleTexts = []struct {
+	what   string
+	text   string
+	syntax bool // the text has a syntax error, which must be reported with a position inside this module
+}{
+	{"sound", "pub fn item() -> int { return 1; }\nfn main() { }\n", false},
+	{"sound-without-the-item", "pub fn other() -> int { return 1; }\nfn main() { }\n", false},
+	{"truncated", "pub fn item() -> int { return 1", true},
+	{"stray-token", "pub fn item() -> int { return 1; }\n) fn main() { }\n", true},
+	{"unclosed-string", "pub fn item() -> int { println(\"abc); return 1; }\nfn main() { }\n", true},
+	{"illegal-character", "pub fn item() -> int { return 1 ` 2; }\nfn main() { }\n", true},
+	{"missing-semicolon", "pub fn item() -> int { let a = 1 return a; }\nfn main() { }\n", true},
+	{"ill-typed", "pub fn item() -> int { return \"s\"; }\nfn main() { }\n", false},
+	{"empty", "", false},
+}
+
+// VerifHarness_ImportGraphs: the entry module imports through one of five graph shapes; one module of the graph
+// (selector) carries one of the texts above, the others are sound. Analyze must return (no panic, no hang), and a
+// syntax error inside a module must come back as a syntax error whose position names that module.
+func VerifHarness_ImportGraphs() {
+	shape := errors.VerifNdIntRange("shape", 0, 5)
+	text := errors.VerifNdIntRange("text", 0, len(verifModuleTexts)-1)
+	errors.VerifTag("shape", []string{"defective-then-sound", "sound-then-defective", "behind-a-library", "library-imports-defective-then-sound", "diamond-bottom", "imported-twice"}[shape])
+	errors.VerifTag("text", verifModuleTexts[text].what)
+	bad := verifModuleTexts[text].text
+	good := "pub fn fine() -> int { return 2; }\nfn main() { }\n"
+	var modules map[string]string
+	var main string
+	switch shape {
+	case 0:
+		main = "import item from broken;\nimport fine from good;\nfn main() {\n  println(item() + fine());\n}\n"
+		modules = map[string]string{"broken": bad, "good": good}
+	case 1:
+		main = "import fine from good;\nimport item from broken;\nfn main() {\n  println(item() + fine());\n}\n"
+		modules = map[string]string{"broken": bad, "good": good}
+	case 2:
+		main = "import viaLib from lib;\nfn main() {\n  println(viaLib());\n}\n"
+		modules = map[string]string{"broken": bad, "lib": "import item from broken;\npub fn viaLib() -> int { return item(); }\nfn main() { }\n"}
+	case 3:
+		main = "import viaLib from lib;\nimport fine from good;\nfn main() {\n  println(viaLib() + fine());\n}\n"
+		modules = map[string]string{"broken": bad, "good": good, "lib": "import item from broken;\nimport fine from good;\npub fn viaLib() -> int { return item() + fine(); }\nfn main() { }\n"}
+	case 4:
+		main = "import fa from a;\nimport fb from b;\nfn main() {\n  println(fa() + fb());\n}\n"
+		modules = map[string]string{"broken": bad,
+			"a": "import item from broken;\npub fn fa() -> int { return item(); }\nfn main() { }\n",
+			"b": "import item from broken;\npub fn fb() -> int { return item(); }\nfn main() { }\n"}
+	case 5:
+		main = "import item from broken;\nimport { item } from broken;\nimport fine from good;\nfn main() {\n  println(item() + fine());\n}\n"
+		modules = map[string]string{"broken": bad, "good": good}
+	}
+	modules["main"] = main
+	verifDebug("program", main)
+	var an verifAnalysis
+	panicked, pmsg := errors.VerifPanics(func() { an = verifAnalyze(main, modules, nil, true) })
+	if panicked {
+		errors.VerifTag("panic", errors.VerifNorm(pmsg))
+		errors.VerifTag("site", errors.VerifPanicSite())
+	}
+	errors.VerifAssert("analysis-never-panics", !panicked)
+	if panicked {
+		return
+	}
+	errors.VerifReached("analyzed")
+	if verifModuleTexts[text].syntax {
+		named := false
+		for _, e := range an.syntax {
+			if e.Span.Filename == "broken" {
+				named = true
+			}
+		}
+		errors.VerifAssert("syntax-error-of-a-module-is-returned-with-a-position-in-that-module", named)
+	}
+	if text == 0 && shape != 5 {
+		if an.hasError {
+			errors.VerifTag("diag", an.describe())
+		}
+		errors.VerifAssert("sound-graph-accepted", !an.hasError)
+	}
+	if text == 7 || text == 1 || text == 8 {
+		errors.VerifAssert("defective-module-rejected", an.hasError)
+	}
+	if errors.VerifParam("spans", 0) == 1 {
+		verifCheckReportedSpansIn(an, modules)
+	}
+}
